@@ -1,0 +1,5 @@
+//go:build !verif
+
+package spdxexp
+
+func verifStage(fn, stage string) {}
